@@ -299,6 +299,14 @@ def _var_from_call(f, e, callee):
     return False
 
 
+def r5(ctx, prog):
+    R = ctx.rule("C11.R5", "forced collect really purges: the arena purge drivers skip on an expiry value only when force is false (the global/arena expiry is a hint that "
+                           "is reset even when blocks remain scheduled)")
+    import shared
+    shared.forced_purge_not_skipped(ctx, R, prog)
+    ctx.floor(R, 3)
+
+
 def run(ctx):
     ctx.explanation = ("Static decision of the code-shaped necessary conditions of C11 on every CFG path of the release chain "
                        "(segment free -> arena free -> OS free -> munmap): writer/reader agreement on memid.mem.os.{base,size}, no dropped "
@@ -308,11 +316,11 @@ def run(ctx):
     for c in configs:
         prog = ctx.prog(c)
         if c == "REL":
-            r1(ctx, prog); r2(ctx, prog); r3(ctx, prog); r4(ctx, prog)
+            r1(ctx, prog); r2(ctx, prog); r3(ctx, prog); r4(ctx, prog); r5(ctx, prog)
         else:
             # cross-configuration: the same rules must hold in the hardened and debug programs
             n0 = len(ctx.instances)
-            r1(ctx, prog); r3(ctx, prog); r4(ctx, prog)
+            r1(ctx, prog); r3(ctx, prog); r4(ctx, prog); r5(ctx, prog)
             for i in ctx.instances[n0:]:
                 i["site"] += " [%s]" % c
                 if not i["ok"]:
